@@ -3,6 +3,7 @@ package c04
 import (
 	"fmt"
 	"sort"
+	"strings"
 
 	"github.com/tetratelabs/wazero/verifharness/core"
 	"github.com/tetratelabs/wazero/verifharness/wenc"
@@ -24,19 +25,23 @@ type gen struct {
 	lenient  bool
 	// apiReexports: also call re-exported imported functions through the host API
 	apiReexports bool
-	counts   map[string]int
-	lastW    map[int]string // object id -> instance through which it was last written
+	noChains     bool
+	sweepHot     int // how many of the recently written addresses a sweep reads back
+	counts       map[string]int
+	lastW        map[int]string // object id -> instance through which it was last written
 }
 
 func newGen(r *core.Rng, name string, pageLimit uint32, threads, host bool) *gen {
-	return &gen{r: r, m: newModel(pageLimit, host), counts: map[string]int{}, lastW: map[int]string{},
+	return &gen{r: r, m: newModel(pageLimit, host), counts: map[string]int{}, lastW: map[int]string{}, sweepHot: 12,
 		sc: &Scenario{Name: name, PageLimit: pageLimit, Threads: threads, Host: host}}
 }
 
 func (g *gen) count(k string) { g.counts[k]++ }
 
+func isWrapper(op string) bool { return op == "ci" || op == "cim" || op == "cig" || op == "cit" }
+
 func (g *gen) resolve(f *mFunc) *mFunc {
-	for f.host == "" && f.sem.Op == "ci" {
+	for f.host == "" && isWrapper(f.sem.Op) {
 		f = f.inst.funcs[f.sem.A]
 	}
 	return f
@@ -91,8 +96,12 @@ func (g *gen) tagFor(in *mInst, fidx int) (string, *mFunc) {
 	if f.host == "" && f.inst != in {
 		pre = "reexported-import:"
 	}
-	if f.host == "" && f.sem.Op == "ci" {
-		pre += "via-import:"
+	if f.host == "" && isWrapper(f.sem.Op) {
+		if f.sem.Op == "ci" {
+			pre += "via-import:"
+		} else {
+			pre += "call-then-read(" + map[string]string{"cim": "memory", "cig": "global", "cit": "table"}[f.sem.Op] + "):"
+		}
 		// the imported function is itself a re-exported import of the module it was imported from
 		if tgt := in.funcs[f.sem.A]; tgt.host == "" && f.inst == in {
 			n := 0
@@ -101,7 +110,7 @@ func (g *gen) tagFor(in *mInst, fidx int) (string, *mFunc) {
 					continue
 				}
 				if n == f.sem.A && im.Mod != tgt.inst.name {
-					pre = "via-reexport-chain:"
+					pre = "via-reexport-chain:" + pre
 				}
 				n++
 			}
@@ -253,11 +262,10 @@ func (g *gen) noteHot(a uint32) {
 			return
 		}
 	}
-	if len(g.hot) < 40 {
-		g.hot = append(g.hot, a)
-	} else {
-		g.hot[g.r.Intn(len(g.hot))] = a
+	if len(g.hot) >= 40 {
+		g.hot = append(g.hot[:0], g.hot[1:]...)
 	}
+	g.hot = append(g.hot, a)
 }
 
 // instantiate appends an instantiation step; on success it also appends the
@@ -266,10 +274,9 @@ func (g *gen) instantiate(spec *ModSpec) instResult {
 	res := g.m.instantiate(spec)
 	g.sc.Mods = append(g.sc.Mods, spec)
 	st := Step{Kind: "inst", Inst: spec.Name, Mod: len(g.sc.Mods) - 1}
-	for _, p := range res.Probes {
-		if p.Mutable && res.OK {
-			st.Tag = "const-expr:global.get-mutable-import"
-		}
+	if res.OK && usesMutableImportInConstExpr(spec) {
+		// a runtime may also reject such a module (the specification does): see runEngine
+		st.Tag = "const-expr:global.get-mutable-import"
 	}
 	if !res.OK {
 		st.ExpErr = "fail:" + res.Fail
@@ -299,12 +306,45 @@ func (g *gen) instantiate(spec *ModSpec) instResult {
 	if res.OK {
 		g.live = append(g.live, res.Inst)
 		g.prefix = ""
-		g.chainProbes(res.Inst)
 		g.captureProbes(res)
+		g.chainProbes(res.Inst)
 	} else {
 		g.prefix = "after-failed-instantiation(" + failClass(res.Fail) + "):"
 	}
 	return res
+}
+
+// usesMutableImportInConstExpr: some constant expression of spec reads a MUTABLE imported global
+// (invalid per the specification, accepted by wazero's validator).
+func usesMutableImportInConstExpr(spec *ModSpec) bool {
+	var mut []bool
+	for _, im := range spec.Imports {
+		if im.Ext.Kind == wenc.ExtGlobal {
+			mut = append(mut, im.Ext.Global.Mutable)
+		}
+	}
+	is := func(i int) bool { return i >= 0 && i < len(mut) && mut[i] }
+	for _, g := range spec.Globals {
+		if g.Init == "global" && is(g.Ref) {
+			return true
+		}
+	}
+	for _, d := range spec.Datas {
+		if !d.Passive && is(d.Off.Global) {
+			return true
+		}
+	}
+	for _, e := range spec.Elems {
+		if !e.Passive && is(e.Off.Global) {
+			return true
+		}
+		for _, it := range e.Items {
+			if it.Kind == "global" && is(it.Ref) {
+				return true
+			}
+		}
+	}
+	return false
 }
 
 func failClass(f string) string {
@@ -333,6 +373,7 @@ func (g *gen) chainProbes(in *mInst) {
 			if name := fmt.Sprintf("ci%d", n); in.lay.ByName[name] > 0 {
 				g.count("reexport_chain_imports")
 				g.call(in, name, g.argsFor(f)...)
+				g.sweepUnder("via-reexport-chain:after-call:")
 			}
 		}
 		n++
@@ -423,7 +464,11 @@ func (g *gen) captureProbes(res instResult) {
 func (g *gen) refProbe(in *mInst, table int, slot uint32) {
 	g.call(in, fmt.Sprintf("tisnull%d", table), uint64(slot))
 	if t := in.tabs[table]; int(slot) < len(t.slots) && t.slots[slot].fn != nil {
-		g.call(in, fmt.Sprintf("tcall%d", table), uint64(slot), 1)
+		x := uint64(1)
+		if eff := g.resolve(t.slots[slot].fn); eff.host == "hgrow" || (eff.host == "" && (eff.sem.Op == "mgrow" || eff.sem.Op == "tgrow")) {
+			x = 0 // an imported grow function sits in the table: observing it must not grow anything
+		}
+		g.call(in, fmt.Sprintf("tcall%d", table), uint64(slot), x)
 	}
 }
 
@@ -469,6 +514,20 @@ func (g *gen) val(t wenc.ValType) []uint64 {
 }
 
 func (g *gen) argsFor(f *mFunc) []uint64 {
+	if f.host == "" && isWrapper(f.sem.Op) {
+		inner := g.argsFor(f.inst.funcs[f.sem.A])
+		switch f.sem.Op {
+		case "cim":
+			a1, a2 := uint32(g.r.Intn(64)), g.addr(f.inst.mem)
+			if g.r.Bool() { // the page that a grow by the callee would add
+				a2 = uint32(len(f.inst.mem.data)) + uint32(g.r.Intn(16))
+			}
+			return append(inner, uint64(a1), uint64(a2))
+		case "cit":
+			return append(inner, g.slot(f.inst.tabs[f.sem.B]))
+		}
+		return inner
+	}
 	eff := g.resolve(f)
 	in := eff.inst
 	r := g.r
@@ -553,7 +612,17 @@ func (g *gen) argsFor(f *mFunc) []uint64 {
 	case "xget", "tisnull":
 		return []uint64{g.slot(in.tabs[s.A])}
 	case "tcall":
-		return []uint64{g.slot(in.tabs[s.A]), uint64(g.leafArg())}
+		// the argument suits whatever sits in the slot (a leaf, or an imported accessor such as another module's mgrow)
+		sl := g.slot(in.tabs[s.A])
+		x := uint64(g.leafArg())
+		if t := in.tabs[s.A]; sl < uint64(len(t.slots)) && t.slots[sl].fn != nil {
+			if fn := t.slots[sl].fn; string(fn.typ.Params) == string(tI32) && string(fn.typ.Results) == string(tI32) {
+				if eff := g.resolve(fn); eff.host != "" || !strings.HasPrefix(eff.sem.Op, "leaf") {
+					x = g.argsFor(fn)[0]
+				}
+			}
+		}
+		return []uint64{sl, x}
 	case "tfill":
 		return []uint64{g.slot(in.tabs[s.A]), k(), small()}
 	case "tcopy":
@@ -598,6 +667,21 @@ func (g *gen) randomOp() {
 	}
 	fi := names[g.r.Intn(len(names))]
 	g.call(in, in.lay.Funcs[fi].Name, g.argsFor(in.funcs[fi])...)
+	if fi < in.lay.NImpF {
+		// a re-exported import called through the host API: look at everything it may have touched right away,
+		// so that a wrong callee is attributed to this call
+		g.sweepUnder("reexported-import:after-call:")
+	} else if strings.Contains(g.sc.Steps[len(g.sc.Steps)-1].Tag, "via-reexport-chain:") {
+		g.sweepUnder("via-reexport-chain:after-call:")
+	}
+}
+
+func (g *gen) sweepUnder(prefix string) {
+	save, sh := g.prefix, g.sweepHot
+	g.prefix += prefix
+	g.sweepHot = 64
+	g.sweep()
+	g.prefix, g.sweepHot = save, sh
 }
 
 func (g *gen) randomAPI(in *mInst) {
@@ -659,11 +743,12 @@ func (g *gen) sweep() {
 		if in.mem != nil {
 			g.call(in, "msize")
 			g.api(in, "mem.size")
-			for i, a := range g.hot {
-				if i >= 12 {
-					break
+			for i := 0; i < len(g.hot) && i < g.sweepHot; i++ {
+				a := g.hot[len(g.hot)-1-i]    // most recent first
+				g.call(in, "ld64", uint64(a)) // the widest store; near the end of memory this traps, so:
+				if uint64(a)+8 > uint64(len(in.mem.data)) {
+					g.call(in, "ld8", uint64(a))
 				}
-				g.call(in, "ld8", uint64(a))
 				if i%3 == 0 {
 					g.api(in, "mem.read8", uint64(a))
 				}
@@ -712,6 +797,22 @@ func (g *gen) pool(kind byte, ok func(mExport) bool) []expRef {
 	return out
 }
 
+// funcPool: exported functions importable by the next module; with noChains, functions that the exporting
+// module itself imported are left out.
+func (g *gen) funcPool() []expRef {
+	all := g.pool(wenc.ExtFunc, nil)
+	if !g.noChains {
+		return all
+	}
+	var out []expRef
+	for _, x := range all {
+		if x.e.fn.inst == x.in {
+			out = append(out, x)
+		}
+	}
+	return out
+}
+
 var allValTypes = []wenc.ValType{wenc.I32, wenc.I64, wenc.F32, wenc.F64, wenc.V128, wenc.FuncRef, wenc.ExternRef}
 
 func (g *gen) compatLimits(decl wenc.Limits, cur uint32, minCap uint32) wenc.Limits {
@@ -744,9 +845,21 @@ func (g *gen) genModule(name string) *ModSpec {
 			}
 		}
 	}
-	if fp := g.pool(wenc.ExtFunc, nil); len(fp) > 0 {
+	if fp := g.funcPool(); len(fp) > 0 {
+		var mut []expRef // functions that grow or write a shared object: what the call-then-read wrappers are about
+		for _, x := range fp {
+			if x.e.fn.host == "" && x.e.fn.inst == x.in {
+				switch x.e.fn.sem.Op {
+				case "mgrow", "tgrow", "gset", "st8", "tset":
+					mut = append(mut, x)
+				}
+			}
+		}
 		for n := r.Intn(4); n > 0; n-- {
 			x := fp[r.Intn(len(fp))]
+			if len(mut) > 0 && r.Bool() {
+				x = mut[r.Intn(len(mut))]
+			}
 			spec.Imports = append(spec.Imports, ImportSpec{Mod: x.in.name, Name: x.name, Ext: Ext{Kind: wenc.ExtFunc, Func: x.e.fn.typ}})
 		}
 	}
